@@ -88,7 +88,13 @@ class GridDistortion:
         extent = np.linspace(-max_field, max_field, self.num_points)
         Hx, Hy = np.meshgrid(extent, extent)
 
-        if self.distortion_type == 'f-tan':
+        if self.optic.field_type == 'object_height':
+            # the field is a height, not an angle: the paraxial image point
+            # is the object point times the magnification
+            const = self.optic.surface_group.y[-1, 0] / 1e-10
+            xp = const * Hx
+            yp = const * Hy
+        elif self.distortion_type == 'f-tan':
             const = (self.optic.surface_group.y[-1, 0] /
                      (np.tan(1e-10 * np.radians(self.optic.fields.max_field))))
             xp = const * np.tan(Hx * np.radians(self.optic.fields.max_field))
@@ -113,8 +119,12 @@ class GridDistortion:
         data['yr'] = np.reshape(self.optic.surface_group.y[-1, :],
                                 (self.num_points, self.num_points))
 
-        # optical system flips x, so must correct this
-        data['xp'] = np.flip(xp)
+        # for angular fields the x field angle is counted with the opposite
+        # sign to y, so x must be flipped
+        if self.optic.field_type == 'object_height':
+            data['xp'] = xp
+        else:
+            data['xp'] = np.flip(xp)
         data['yp'] = yp
 
         # Find max distortion
